@@ -434,11 +434,94 @@ static std::string handle_tr(const std::vector<std::string> &toks)
   return vh::join(outs, " ; ");
 }
 
+// rid <nthreads> <k> <fork 0|1>: the REAL RandomIdGenerator (sdk/src/trace/random_id_generator.cc + sdk/src/common/random.cc)
+// sampled from several threads and across fork(): ids must be non-zero and never repeat (a repeated 64-bit random id is
+// a defect, not bad luck).  This samples the "generator returns fresh ids" hypothesis of the C05 theorems.
+#include <set>
+#include <sys/wait.h>
+#include <thread>
+#include <unistd.h>
+#include "opentelemetry/sdk/trace/random_id_generator.h"
+static std::string handle_rid(const std::vector<std::string> &t)
+{
+  if (t.size() != 4) return "bad-op";
+  char *e1 = nullptr, *e2 = nullptr;
+  unsigned long nt = strtoul(t[1].c_str(), &e1, 10), k = strtoul(t[2].c_str(), &e2, 10);
+  if (*e1 || *e2 || nt == 0 || nt > 8 || k == 0 || k > 64 || (t[3] != "0" && t[3] != "1")) return "bad-op";
+  opentelemetry::sdk::trace::RandomIdGenerator gen;
+  auto span_hex = [&](void) {
+    auto id = gen.GenerateSpanId();
+    char b[16];
+    id.ToLowerBase16(opentelemetry::nostd::span<char, 16>(b, 16));
+    return std::string(b, 16);
+  };
+  auto trace_hex = [&](void) {
+    auto id = gen.GenerateTraceId();
+    char b[32];
+    id.ToLowerBase16(opentelemetry::nostd::span<char, 32>(b, 32));
+    return std::string(b, 32);
+  };
+  std::vector<std::vector<std::string>> per(nt);
+  std::vector<std::thread> th;
+  for (unsigned long i = 0; i < nt; i++)
+    th.emplace_back([&, i] {
+      for (unsigned long j = 0; j < k; j++)
+      {
+        per[i].push_back(span_hex());
+        per[i].push_back(trace_hex());
+      }
+    });
+  for (auto &x : th) x.join();
+  std::set<std::string> seen;
+  int dups = 0, zero = 0;
+  for (auto &v : per)
+    for (auto &id : v)
+    {
+      if (id.find_first_not_of('0') == std::string::npos) zero++;
+      if (!seen.insert(id).second) dups++;
+    }
+  int forkclash = 0;
+  if (t[3] == "1")
+  {
+    for (unsigned long j = 0; j < k; j++) span_hex();  // the parent's engine is in use before the fork
+    int fd[2];
+    if (pipe(fd) != 0) return "ERR pipe";
+    fflush(stdout);
+    pid_t pid = fork();
+    if (pid == 0)
+    {
+      std::string out;
+      for (unsigned long j = 0; j < k; j++) out += span_hex();
+      ssize_t w = write(fd[1], out.data(), out.size());
+      (void)w;
+      _exit(0);
+    }
+    close(fd[1]);
+    std::set<std::string> mine;
+    for (unsigned long j = 0; j < k; j++) mine.insert(span_hex());
+    std::string buf(16 * k, ' ');
+    size_t got = 0;
+    while (got < buf.size())
+    {
+      ssize_t r = read(fd[0], &buf[got], buf.size() - got);
+      if (r <= 0) break;
+      got += static_cast<size_t>(r);
+    }
+    close(fd[0]);
+    int st = 0;
+    waitpid(pid, &st, 0);
+    for (size_t j = 0; j + 16 <= got; j += 16)
+      if (mine.count(buf.substr(j, 16))) forkclash++;
+  }
+  return "dups=" + std::to_string(dups) + " zero=" + std::to_string(zero) + " forkclash=" + std::to_string(forkclash);
+}
+
 int main()
 {
   return vh::run_lines([](const std::vector<std::string> &t) -> std::string {
     if (t.empty()) return "bad-op";
     if (t[0] == "tr") return handle_tr(t);
+    if (t[0] == "rid") return handle_rid(t);
     return "bad-op";
   });
 }
